@@ -66,6 +66,31 @@ func runC07(raw json.RawMessage, w *Writer) {
 		w.Emit(Ev{"ev": "random_many", "n": c.K, "max_first": max, "not_below_2_15": bad})
 		return
 	}
+	if c.Kind == "long_fixed" {
+		// several wraps on ONE sequencer, single-threaded and hook-less: the run is projected onto the number of
+		// steps that are not "previous + 1 mod 2^16", the calls that returned 0 with the roll-over count read right
+		// after each of them, and the final value and count
+		s := rtp.NewFixedSequencer(uint16(c.Start))
+		breaks, first, last := 0, -1, -1
+		zeros := [][]int{}
+		r, _ := guard(func() {
+			for i := 1; i <= c.K; i++ {
+				v := int(s.NextSequenceNumber())
+				if first < 0 {
+					first = v
+				} else if v != (last+1)%65536 {
+					breaks++
+				}
+				last = v
+				if v == 0 && len(zeros) < 64 {
+					zeros = append(zeros, []int{i, int(s.RollOverCount())})
+				}
+			}
+		})
+		w.Emit(Ev{"ev": "reset", "class": c.Class, "kind": c.Kind, "start": c.Start, "g": 1, "k": c.K})
+		w.Emit(Ev{"ev": "long", "res": r, "calls": c.K, "first": first, "last": last, "breaks": breaks, "zeros": zeros, "roc": int(s.RollOverCount())})
+		return
+	}
 	if c.Kind == "packetizer" {
 		// the sequencer as a component: a packetizer draws the numbers (possibly through other entry points than
 		// NextSequenceNumber); observed through the public API only - the packets' sequence numbers and RollOverCount
